@@ -55,38 +55,37 @@ def main():
     cands = [c for c in cands if c['prop'] == 'C12']
     C = consumer.Consumer(sc)
     replayed = 0
-    done = set()
-    for c in sorted(cands, key=lambda c: len(json.dumps(c))):
-        if c['kernel'] in done:
+    # a missing Box on one type of a cycle can be compensated by a Box elsewhere on the cycle: replay several counterexamples,
+    # graphs on which the predicate is wrong for several types first
+    from collections import Counter
+    under = [c for c in cands if c['kernel'] == 'input_recursion' and c['got'] == 'False']
+    freq = Counter(json.dumps(c['graph']) for c in under)
+    under.sort(key=lambda c: (-freq[json.dumps(c['graph'])], len(json.dumps(c['graph']))))
+    tried, hit = set(), False
+    for c in under:
+        g = json.dumps(c['graph'])
+        if g in tried or len(tried) >= (5 if tier == 'quick' else 12):
             continue
-        if c['kernel'] == 'input_recursion':
-            ok, desc, schema, query = confirm_inputs(C, c)
-            replayed += 1
-            over_boxed = c['got'] == 'True'
-            if ok is False:
-                done.add(c['kernel'])
-                out.violation('input-cycle-without-box', desc, dict(kind='solver', model=c, schema=schema, query=query))
-            elif ok is True and over_boxed:
-                # boxing a type that is on no list-free cycle is harmless for finiteness: not a violation of C12
-                continue
-            elif ok is True:
-                out.inconc(f'solver counterexample (missing Box) compiles natively: {c["graph"]}')
-                done.add(c['kernel'])
-            else:
-                out.inconc(desc)
-                done.add(c['kernel'])
-        else:
-            # fragment flag: render and compile a query that uses the fragment
-            schema, query = synth.fragment_texts(c['fragments'], use=int(c['target'][1:]))
-            err = C.build(schema, query, 'Q', 'q')
-            replayed += 1
-            done.add(c['kernel'])
-            if err and 'E0072' in err:
-                out.violation('recursive-fragment-without-box', 'generated fragment types have infinite size (E0072)', dict(kind='solver', model=c, schema=schema, query=query))
-            elif c['got'] == 'True':
-                continue
-            else:
-                out.inconc(f'fragment recursion counterexample did not reproduce natively: {c["fragments"]} ({(err or "compiles")[-200:]})')
+        tried.add(g)
+        ok, desc, schema, query = confirm_inputs(C, c)
+        replayed += 1
+        if ok is False:
+            out.violation('input-cycle-without-box', desc + f' for {c["graph"]}', dict(kind='solver', model=c, schema=schema, query=query))
+            hit = True
+            break
+    if under and not hit:
+        out.inconc(f'the recursion predicate differs from "lies on a list-free cycle" on {len(freq)} graphs, but the {len(tried)} replayed ones still compile '
+                   f'(another Box on the cycle compensates); first: {under[0]["graph"]}')
+    for c in [c for c in cands if c['kernel'] == 'fragment_is_recursive' and c['got'] == 'False'][:3]:
+        schema, query = synth.fragment_texts(c['fragments'], use=int(c['target'][1:]))
+        err = C.build(schema, query, 'Q', 'q')
+        replayed += 1
+        if err and 'E0072' in err:
+            out.violation('recursive-fragment-without-box', 'generated fragment types have infinite size (E0072)', dict(kind='solver', model=c, schema=schema, query=query))
+            break
+    else:
+        if any(c['kernel'] == 'fragment_is_recursive' and c['got'] == 'False' for c in cands):
+            out.inconc('fragment recursion counterexamples did not reproduce natively')
     for w in R.inconclusive:
         out.inconc(w)
     cross = R.cross_check(limit=4 if tier == 'quick' else 20)
